@@ -222,6 +222,16 @@ func init() {
 					}
 				}
 			}
+			// contended: one operation against three single-operation writer threads (a retrying
+			// swap! can lose up to three races in a row)
+			for i := 0; i < n; i++ {
+				for _, w := range []int{1, 2} { // reset!, swap!-inc
+					if tier != "thorough" && !(w == 1 && i == 5) {
+						continue // quick: only the self-reading swap! against three reset!s
+					}
+					add([][]int{{i}, {w}, {w}, {w}})
+				}
+			}
 			// two operations on one thread against one (quick) / two (thorough) on the other
 			for i := 0; i < n; i++ {
 				for j := 0; j < n; j++ {
@@ -355,7 +365,7 @@ func init() {
 		}
 		fam := &vf.Family{
 			Name:    "atom-scenarios",
-			Bounds:  fmt.Sprintf("all multisets of 2 threads x 1 op, 3 threads x 1 op, (2 ops || 1 op) and, thorough, (2 ops || 2 ops) over %d atom operations on atoms a, b; per scenario all interleavings at lock operations and hook points of lib/concurrent up to preemption bound 2 (quick) / 3 (thorough), capped at 20000 (quick) / 200000 (thorough) executions per scenario", len(atomOps)),
+			Bounds:  fmt.Sprintf("all multisets of 2 threads x 1 op, 3 threads x 1 op, one op against three identical writers (bound 3), (2 ops || 1 op) and, thorough, (2 ops || 2 ops) over %d atom operations on atoms a, b; per scenario all interleavings at lock operations and hook points of lib/concurrent up to preemption bound 2 (quick) / 3 (thorough), capped at 20000 (quick) / 200000 (thorough) executions per scenario", len(atomOps)),
 			Setup:   setup,
 			Timeout: 120 * time.Second,
 			N:       func(t string) int64 { tier = t; return int64(len(plansOf())) },
@@ -365,6 +375,9 @@ func init() {
 				bound, maxEx := 2, 20000
 				if tier == "thorough" {
 					bound, maxEx = 3, 200000
+				}
+				if len(plan) == 4 {
+					bound, maxEx = 3, 400000 // three lost races in a row need three preemptions
 				}
 				res := explore.Explore(mkScenario(plan), bound, maxEx, time.Now().Add(60*time.Second))
 				r.Exec(int64(res.Execs))
